@@ -18,7 +18,8 @@ type genCase struct {
 	kind    string
 	version primitive.ProtocolVersion
 	comp    string // none | lz4 | snappy : the compressor of the codec (the Compressed flag is set iff comp != none)
-	phase   string // enum | sweep | random
+	phase   string // corpus | enum | sweep | random | nonvalid
+	invalid bool   // not version-valid / not in normal form: characterised, never judged
 	class   string
 	f       *frame.Frame
 }
@@ -55,7 +56,9 @@ func (fs flagSpec) String() string {
 	return strings.Join(p, ",")
 }
 
-func compressibleKind(kind string) bool { return kind != "Startup" && kind != "Options" && kind != "Ready" }
+func compressibleKind(kind string) bool {
+	return kind != "Startup" && kind != "Options" && kind != "Ready"
+}
 
 func compressionsFor(kind string, v primitive.ProtocolVersion) []string {
 	if !compressibleKind(kind) {
@@ -503,12 +506,163 @@ func corpusCases(thorough bool, emit func(gc genCase)) {
 	}
 }
 
-// allCases streams the whole generator: corpus, enumeration, sweeps, then n seeded random cases.
+// nonValidCases: frames that are NOT version-valid or not in normal form (a field that the variant / version does not
+// carry is set, a documented precondition is broken).  They are emitted with "valid": false: the checks are computed
+// but are not claims of the properties; they document what the code does there and feed the model correspondence.
+func nonValidCases(emit func(gc genCase)) {
+	add := func(v primitive.ProtocolVersion, class string, msg message.Message) {
+		emit(genCase{kind: kindOf(msg), version: v, comp: "none", phase: "nonvalid", invalid: true, class: class, f: plainFrame(v, 9, msg)})
+	}
+	i32p := func(x int32) *int32 { return &x }
+	i64p := func(x int64) *int64 { return &x }
+	any := primitive.ConsistencyLevelAny
+	for _, v := range allVersions {
+		add(v, "nil options", &message.Query{Query: "q"})
+		add(v, "nil options", &message.Execute{QueryId: []byte{1}, ResultMetadataId: rmid(v)})
+		add(v, "regular value with nil contents", &message.Query{Query: "q", Options: &message.QueryOptions{PositionalValues: []*primitive.Value{{Type: primitive.ValueTypeRegular}}}})
+		add(v, "positional and named values", &message.Query{Query: "q", Options: &message.QueryOptions{
+			PositionalValues: []*primitive.Value{primitive.NewValue([]byte{1})}, NamedValues: map[string]*primitive.Value{"a": primitive.NewValue([]byte{2})}}})
+		add(v, "page size 0 in bytes", &message.Query{Query: "q", Options: &message.QueryOptions{PageSizeInBytes: true}})
+		add(v, "negative page size", &message.Query{Query: "q", Options: &message.QueryOptions{PageSize: -1}})
+		add(v, "non-serial serial consistency", &message.Query{Query: "q", Options: &message.QueryOptions{SerialConsistency: &any}})
+		add(v, "non-serial serial consistency", &message.Batch{SerialConsistency: &any})
+		add(v, "invalid consistency", &message.Query{Query: "q", Options: &message.QueryOptions{Consistency: 0x0b}})
+		add(v, "invalid consistency", &message.Batch{Consistency: 0xffff})
+		add(v, "invalid consistency", &message.Unavailable{Consistency: 0x0b})
+		add(v, "column index set", &message.RowsResult{Metadata: &message.RowsMetadata{ColumnCount: 1, Columns: []*message.ColumnMetadata{{Keyspace: "k", Table: "t", Name: "c", Index: 5, Type: datatype.Int}}}})
+		add(v, "column count differs from columns", &message.RowsResult{Metadata: &message.RowsMetadata{ColumnCount: 2, Columns: []*message.ColumnMetadata{{Keyspace: "k", Table: "t", Name: "c", Type: datatype.Int}}}})
+		add(v, "nil rows metadata", &message.RowsResult{})
+		add(v, "row shorter than the column count", &message.RowsResult{Metadata: &message.RowsMetadata{ColumnCount: 2}, Data: message.RowSet{{[]byte{1}}}})
+		add(v, "nil prepared metadata", &message.PreparedResult{PreparedQueryId: []byte{1}, ResultMetadataId: rmid(v)})
+		add(v, "last continuous page without page number", &message.RowsResult{Metadata: &message.RowsMetadata{LastContinuousPage: true}})
+		add(v, "keyspace target with object", &message.SchemaChangeResult{ChangeType: primitive.SchemaChangeTypeCreated, Target: primitive.SchemaChangeTargetKeyspace, Keyspace: "ks", Object: "o"})
+		add(v, "table target with arguments", &message.SchemaChangeEvent{ChangeType: primitive.SchemaChangeTypeCreated, Target: primitive.SchemaChangeTargetTable, Keyspace: "ks", Object: "t", Arguments: []string{"a"}})
+		add(v, "contentions without CAS", &message.WriteTimeout{WriteType: primitive.WriteTypeSimple, Contentions: 3})
+		add(v, "unknown write type", &message.WriteTimeout{WriteType: "NOPE"})
+		add(v, "unknown write type", &message.WriteFailure{WriteType: "NOPE"})
+		add(v, "empty execute id", &message.Execute{Options: &message.QueryOptions{}})
+		add(v, "empty prepare query", &message.Prepare{})
+		add(v, "empty register", &message.Register{})
+		add(v, "unknown event type", &message.Register{EventTypes: []primitive.EventType{"NOPE"}})
+		add(v, "nil inet", &message.StatusChangeEvent{ChangeType: primitive.StatusChangeTypeUp})
+		add(v, "nil address", &message.StatusChangeEvent{ChangeType: primitive.StatusChangeTypeUp, Address: &primitive.Inet{}})
+		add(v, "5-byte address", &message.TopologyChangeEvent{ChangeType: primitive.TopologyChangeTypeNewNode, Address: &primitive.Inet{Addr: []byte{1, 2, 3, 4, 5}}})
+		add(v, "nil batch child value", &message.Batch{Children: []*message.BatchChild{{Query: "q", Values: []*primitive.Value{nil}}}})
+		add(v, "batch child with query and id", &message.Batch{Children: []*message.BatchChild{{Query: "q", Id: []byte{1}}}})
+		add(v, "batch child without query and id", &message.Batch{Children: []*message.BatchChild{{}}})
+		add(v, "invalid batch type", &message.Batch{Type: 3})
+		add(v, "nil data type", &message.RowsResult{Metadata: &message.RowsMetadata{ColumnCount: 1, Columns: []*message.ColumnMetadata{{Name: "c"}}}})
+		add(v, "udt names and types differ", &message.RowsResult{Metadata: &message.RowsMetadata{ColumnCount: 1, Columns: []*message.ColumnMetadata{{Name: "c",
+			Type: &datatype.UserDefined{Keyspace: "k", Name: "u", FieldNames: []string{"a", "b"}, FieldTypes: []datatype.DataType{datatype.Int}}}}}})
+		add(v, "string longer than 65535", &message.ServerError{ErrorMessage: repeatString(65536, 0)})
+		// features of later versions
+		if !hasUnset(v) {
+			add(v, "unset value", &message.Query{Query: "q", Options: &message.QueryOptions{PositionalValues: []*primitive.Value{primitive.NewUnsetValue()}}})
+		}
+		if !hasNamedValues(v) {
+			add(v, "named values", &message.Query{Query: "q", Options: &message.QueryOptions{NamedValues: map[string]*primitive.Value{"a": primitive.NewValue([]byte{2})}}})
+		}
+		if !hasDefaultTimestamp(v) {
+			add(v, "default timestamp", &message.Query{Query: "q", Options: &message.QueryOptions{DefaultTimestamp: i64p(1)}})
+		}
+		if !hasBatchFlags(v) {
+			add(v, "batch flags", &message.Batch{DefaultTimestamp: i64p(1)})
+		}
+		if !hasKeyspace(v) {
+			add(v, "keyspace", &message.Query{Query: "q", Options: &message.QueryOptions{Keyspace: "ks"}})
+			add(v, "keyspace", &message.Prepare{Query: "q", Keyspace: "ks"})
+			add(v, "keyspace", &message.Batch{Keyspace: "ks"})
+			add(v, "new result metadata id", &message.RowsResult{Metadata: &message.RowsMetadata{NewResultMetadataId: []byte{1}}})
+			add(v, "result metadata id", &message.Execute{QueryId: []byte{1}, ResultMetadataId: []byte{2}, Options: &message.QueryOptions{}})
+		}
+		if !hasNowInSeconds(v) {
+			add(v, "now in seconds", &message.Query{Query: "q", Options: &message.QueryOptions{NowInSeconds: i32p(1)}})
+			add(v, "now in seconds", &message.Batch{NowInSeconds: i32p(1)})
+		}
+		if !isDse(v) {
+			add(v, "continuous paging", &message.Query{Query: "q", Options: &message.QueryOptions{ContinuousPagingOptions: &message.ContinuousPagingOptions{MaxPages: 1}}})
+			add(v, "page size in bytes", &message.Query{Query: "q", Options: &message.QueryOptions{PageSize: 10, PageSizeInBytes: true}})
+			add(v, "continuous page number", &message.RowsResult{Metadata: &message.RowsMetadata{ContinuousPageNumber: 1}})
+			add(v, "revise", &message.Revise{RevisionType: primitive.DseRevisionTypeCancelContinuousPaging, TargetStreamId: 1})
+		} else {
+			add(v, "next pages on cancel", &message.Revise{RevisionType: primitive.DseRevisionTypeCancelContinuousPaging, TargetStreamId: 1, NextPages: 4})
+			if v == dse1 {
+				add(v, "more pages", &message.Revise{RevisionType: primitive.DseRevisionTypeMoreContinuousPages, TargetStreamId: 1, NextPages: 4})
+				add(v, "next pages in continuous paging options", &message.Query{Query: "q", Options: &message.QueryOptions{ContinuousPagingOptions: &message.ContinuousPagingOptions{NextPages: 4}}})
+			}
+		}
+		if hasReasonMap(v) {
+			add(v, "num failures with reason map", &message.ReadFailure{NumFailures: 3})
+			add(v, "invalid failure code", &message.ReadFailure{FailureReasons: []*primitive.FailureReason{{Endpoint: []byte{1, 2, 3, 4}, Code: 7}}})
+			add(v, "nil failure reason", &message.WriteFailure{WriteType: primitive.WriteTypeSimple, FailureReasons: []*primitive.FailureReason{nil}})
+		} else {
+			add(v, "reason map", &message.ReadFailure{FailureReasons: []*primitive.FailureReason{{Endpoint: []byte{1, 2, 3, 4}, Code: 1}}})
+		}
+		if !hasContentions(v) {
+			add(v, "contentions", &message.WriteTimeout{WriteType: primitive.WriteTypeCas, Contentions: 3})
+		}
+		if v < v4 {
+			add(v, "function target", &message.SchemaChangeResult{ChangeType: primitive.SchemaChangeTypeCreated, Target: primitive.SchemaChangeTargetFunction, Keyspace: "ks", Object: "f", Arguments: []string{"int"}})
+			add(v, "v4 data type", &message.RowsResult{Metadata: &message.RowsMetadata{ColumnCount: 1, Columns: columnsOf([]datatype.DataType{datatype.Date}, true)}})
+			add(v, "pk indices", &message.PreparedResult{PreparedQueryId: []byte{1}, VariablesMetadata: &message.VariablesMetadata{PkIndices: []uint16{0}}, ResultMetadata: &message.RowsMetadata{}})
+			f := plainFrame(v, 9, &message.VoidResult{})
+			f.Header.Flags |= primitive.HeaderFlagCustomPayload
+			f.Body.CustomPayload = map[string][]byte{"k": {1}}
+			emit(genCase{kind: "VoidResult", version: v, comp: "none", phase: "nonvalid", invalid: true, class: "custom payload", f: f})
+			g := plainFrame(v, 9, &message.VoidResult{})
+			g.Header.Flags |= primitive.HeaderFlagWarning
+			g.Body.Warnings = []string{"w"}
+			emit(genCase{kind: "VoidResult", version: v, comp: "none", phase: "nonvalid", invalid: true, class: "warnings", f: g})
+		}
+		if v < v3 {
+			add(v, "type target", &message.SchemaChangeEvent{ChangeType: primitive.SchemaChangeTypeCreated, Target: primitive.SchemaChangeTargetType, Keyspace: "ks", Object: "t"})
+			add(v, "udt", &message.RowsResult{Metadata: &message.RowsMetadata{ColumnCount: 1, Columns: columnsOf([]datatype.DataType{datatype.NewTuple(datatype.Int)}, true)}})
+			add(v, "moved node", &message.TopologyChangeEvent{ChangeType: primitive.TopologyChangeTypeMovedNode, Address: &primitive.Inet{Addr: []byte{1, 2, 3, 4}}})
+			f := plainFrame(v, 300, &message.Options{})
+			emit(genCase{kind: "Options", version: v, comp: "none", phase: "nonvalid", invalid: true, class: "stream id beyond a byte", f: f})
+		}
+		if v < v5 {
+			add(v, "duration type", &message.RowsResult{Metadata: &message.RowsMetadata{ColumnCount: 1, Columns: columnsOf([]datatype.DataType{datatype.Duration}, true)}})
+		}
+		// header / body disagreements
+		f := plainFrame(v, 9, &message.Query{Query: "q", Options: &message.QueryOptions{}})
+		f.Header.Flags |= primitive.HeaderFlagWarning
+		f.Body.Warnings = []string{"w"}
+		emit(genCase{kind: "Query", version: v, comp: "none", phase: "nonvalid", invalid: true, class: "warnings on a request", f: f})
+		g := plainFrame(v, 9, &message.VoidResult{})
+		g.Header.Flags |= primitive.HeaderFlagTracing
+		emit(genCase{kind: "VoidResult", version: v, comp: "none", phase: "nonvalid", invalid: true, class: "tracing flag without tracing id", f: g})
+		h := plainFrame(v, 9, &message.VoidResult{})
+		h.Header.OpCode = primitive.OpCodeReady
+		emit(genCase{kind: "VoidResult", version: v, comp: "none", phase: "nonvalid", invalid: true, class: "opcode differs from the message", f: h})
+		k := plainFrame(v, 9, &message.VoidResult{})
+		k.Header.Flags |= primitive.HeaderFlagCompressed
+		emit(genCase{kind: "VoidResult", version: v, comp: "none", phase: "nonvalid", invalid: true, class: "compressed flag without compressor", f: k})
+		if v >= v4 {
+			p := plainFrame(v, 9, &message.VoidResult{})
+			p.Header.Flags |= primitive.HeaderFlagCustomPayload
+			emit(genCase{kind: "VoidResult", version: v, comp: "none", phase: "nonvalid", invalid: true, class: "payload flag with empty payload", f: p})
+			q := plainFrame(v, 9, &message.VoidResult{})
+			q.Body.CustomPayload = map[string][]byte{"k": {1}}
+			emit(genCase{kind: "VoidResult", version: v, comp: "none", phase: "nonvalid", invalid: true, class: "payload without flag", f: q})
+		}
+		st := plainFrame(v, 9, &message.Startup{Options: map[string]string{"CQL_VERSION": "3.0.0"}})
+		st.Header.Flags |= primitive.HeaderFlagCompressed
+		emit(genCase{kind: "Startup", version: v, comp: "lz4", phase: "nonvalid", invalid: true, class: "compressed startup", f: st})
+	}
+	for _, bad := range []primitive.ProtocolVersion{0, 1, 6, 64, 67, 127} {
+		f := plainFrame(bad, 1, &message.Options{})
+		emit(genCase{kind: "Options", version: bad, comp: "none", phase: "nonvalid", invalid: true, class: "unsupported version", f: f})
+	}
+}
+
+// allCases streams the whole generator: corpus, enumeration, sweeps, non-valid frames, then n seeded random cases.
 func allCases(n int, thorough bool, seed int64, emit func(gc genCase)) {
 	corpusCases(thorough, emit)
 	enumCases(emit)
 	rnd := rand.New(rand.NewSource(seed))
 	sweepCases(rnd, thorough, emit)
+	nonValidCases(emit)
 	c := newRandChooser(rnd)
 	for i := 0; i < n; i++ {
 		emit(randomCase(c))
